@@ -285,6 +285,9 @@ func (fc *FnCtx) typeInv(st *State, v Val, depth int) []string {
 	if _, ok := t.(*types.TypeParam); ok {
 		return nil
 	}
+	if vt, ok := isAtomicInt(t); ok {
+		return fc.typeInv(st, Val{v.T, vt}, depth)
+	}
 	var out []string
 	switch u := t.Underlying().(type) {
 	case *types.Basic:
